@@ -1177,13 +1177,22 @@ def storage_variant(tape, recipe):
     import copy as _copy
     twin = _copy.deepcopy(recipe)
     done = []
-    for _ in range(1 + tape.draw(2, "twin.count")):
-        path, kind = sites[tape.draw(len(sites), "twin.site")]
-        node = twin
-        for k in path[:-1]:
-            node = node[k]
-        last = path[-1] if path else None
-        target = node[last] if path else twin
+    resize = [x for x in sites if x[1] == "resize"]
+    for n_done in range(1 + tape.draw(2, "twin.count")):
+        if n_done == 0 and resize and tape.chance(1, 2, "twin.resize"):
+            path, kind = resize[tape.draw(len(resize), "twin.resize.site")]
+        else:
+            path, kind = sites[tape.draw(len(sites), "twin.site")]
+        try:
+            node = twin
+            for k in path[:-1]:
+                node = node[k]
+            last = path[-1] if path else None
+            target = node[last] if path else twin
+        except (IndexError, KeyError, TypeError):
+            continue        # the place was inside a part an earlier respelling replaced
+        if not isinstance(target, list) or not target:
+            continue
         if kind == "int" and target[0] == "i":
             node[last] = ["f", target[1], 1]
             done.append("int->float")
